@@ -144,7 +144,7 @@ class FileRenamer:
         destination_path: Path,
         override: bool = False,
     ) -> None:
-        if not override and destination_path.exists():
+        if not override and os.path.lexists(destination_path):
             raise DestinationAlreadyExistsError(source_path, destination_path)
         if source_path.parent != destination_path.parent:
             raise InvalidDestinationError(
@@ -160,7 +160,7 @@ class FileMover:
         destination_path: Path,
         override: bool = False,
     ) -> None:
-        if not override and destination_path.exists():
+        if not override and os.path.lexists(destination_path):
             raise DestinationAlreadyExistsError(source_path, destination_path)
         destination_path.parent.mkdir(parents=True, exist_ok=True)
         shutil.move(str(source_path), destination_path)
